@@ -18,7 +18,7 @@ CFG = dict(
           "with its neighbours/transposed pair)."),
     exhaustive={"quick": False, "thorough": False},
     exhaustive_domain={"quick": "complete for all pairs of u8, s8, packed<1..8> and for every invert operand of <=16-bit/packed<=16 models; "
-                                "16-bit: every a x ~130 boundary b + 2^22 seeded pairs; 32-bit/float stratified",
+                                "16-bit: every a x ~130 boundary b + 2^22 seeded pairs; 32-bit/float stratified; plus, seed-independent, the pairs whose product is an exact multiple of max",
                        "thorough": "complete for all pairs of u8, s8, packed<1..12>, uint16_t (2^32), int16_t (2^32) and every invert "
                                    "operand of <=16-bit models; packed<13..16>, 32-bit, packed 24/31, float32/64 stratified (grid + 2^24 seeded pairs)"},
     types=["uint8_t", "int8_t", "uint16_t", "int16_t", "uint32_t", "int32_t", "float32_t", "float64_t",
